@@ -68,3 +68,18 @@ Print Assumptions C05_cache_files_complete.
 Theorem C05_sequential_equivalence : forall c x s, Winv s -> call_side c x s -> call_run c x s = call_step c x s.
 Proof. exact call_run_is_step. Qed.
 Print Assumptions C05_sequential_equivalence.
+
+From DC Require Import CacheRun ConcRun ConcRunFacts.
+
+(* the schedule-correspondence check (harness/schedcorr.py evaluates ConcRun.sched_check on the schedule the
+   implementation ran under) is sound: agreement means that some schedule of the machine, from the empty cache
+   with the compiled programs, reaches a configuration that satisfies the machine invariant, whose clients
+   returned what the implementation returned and whose committed rows, counters and files are those on disk *)
+Theorem C05_schedule_correspondence_sound : forall c setup progs events seen_by final,
+  sched_check c init_st setup progs events seen_by final = -1 ->
+  exists su ps sch,
+    let cf := exec (init_config init_st (prog_fun ps su)) sch in
+    Inv refs Winv cf /\ Winv (db cf) /\ (forall g, In g (refs (db cf)) -> files cf g = FDone) /\
+    clients_ok cf seen_by 0 = -1 /\ disk_matches cf final = true.
+Proof. exact sched_check_sound. Qed.
+Print Assumptions C05_schedule_correspondence_sound.
